@@ -51,6 +51,13 @@ def qcKey (q : QC) : String := s!"{q.view}:{q.hash}:{sigKey q.sig}"
 def tmoKey (id v : Nat) (qc : Option QC) : Msg :=
   s!"tmo:{id}:{v}:" ++ (match qc with | none => "-" | some q => qcKey q)
 
+/-- bytes of `Sign(m)` by replica `r`: ECDSA is randomised (fresh bytes each time), Ed25519 is
+deterministic (the same bytes for the same signer and message) -/
+def CertSt.signBytes (s : CertSt) (r : Nat) (m : Msg) : CertSt × Nat :=
+  match (if s.cfg.scheme == .eddsa then s.truth.find? (fun p => p.2 == ⟨r, m⟩) else none) with
+  | some p => (s, p.1)
+  | none => ({ s with truth := (s.nextBytes, ⟨r, m⟩) :: s.truth, nextBytes := s.nextBytes + 1 }, s.nextBytes)
+
 def CertSt.env (s : CertSt) : CertEnv :=
   { T := fun b => s.truth.lookup b, cfg := s.cfg, store := s.store, tmoMsg := fun id v q => tmoKey id v (some q) }
 
@@ -142,8 +149,9 @@ def certStep (s : CertSt) (toks : List String) : CertSt × String :=
         let sg := blsSign r m
         ({ s with sigs := (name, sg) :: s.sigs }, descSigM sg)
       else
-        let sg := Sig.multi s.cfg.scheme [⟨r, s.nextBytes⟩]
-        ({ s with sigs := (name, sg) :: s.sigs, truth := (s.nextBytes, ⟨r, m⟩) :: s.truth, nextBytes := s.nextBytes + 1 }, descSigM sg)
+        let (s', b) := s.signBytes r m
+        let sg := Sig.multi s.cfg.scheme [⟨r, b⟩]
+        ({ s' with sigs := (name, sg) :: s'.sigs }, descSigM sg)
     | _, _ => (s, "bad-op")
   | "multi" :: name :: ents =>
     if s.cfg.scheme == .bls12 then (s, "bad-op") else
@@ -229,8 +237,8 @@ def certStep (s : CertSt) (toks : List String) : CertSt × String :=
       if s.cfg.scheme == .bls12 then
         ({ s with sigs := (name, blsSign r m) :: s.sigs }, s!"ok signer={r}")
       else
-        ({ s with sigs := (name, .multi s.cfg.scheme [⟨r, s.nextBytes⟩]) :: s.sigs, truth := (s.nextBytes, ⟨r, m⟩) :: s.truth,
-                  nextBytes := s.nextBytes + 1 }, s!"ok signer={r}")
+        let (s', b) := s.signBytes r m
+        ({ s' with sigs := (name, .multi s.cfg.scheme [⟨r, b⟩]) :: s'.sigs }, s!"ok signer={r}")
     | _, _ => (s, "bad-op")
   | "create-qc" :: r :: name :: b :: ins =>
     match s.replica r, s.blocks.lookup b, lookupAllS s.sigs ins with
